@@ -96,10 +96,11 @@ impl Registry {
             if let Expr::Unit { name: ref alias } = *expr {
                 // A definition file that failed to load can leave an
                 // alias cycle behind, don't follow it forever.
-                if alias == name || seen.contains(alias) {
+                // Coming back to `name` itself is a cycle too, it can be
+                // reached through a plural or a prefix instead of an alias.
+                if alias == name || seen.contains(alias) || !seen.insert(name.to_owned()) {
                     return Some(name.to_owned());
                 }
-                seen.insert(name.to_owned());
                 let name = alias;
                 if let Some(canonicalized) = self.canonicalize_seen(&*name, seen) {
                     return Some(canonicalized);
